@@ -250,6 +250,8 @@ package semantic
 //@   ensures err == nil ==> xCS(t, len(t.Constants), nSL(t)) && xCV(t, len(t.Constants), len(t.Services)) && xSV(t, nSL(t), len(t.Services))
 //@   loop 1 invariant err == nil && globals != nil && mapOK(globals, t, $i, 0, 0, 0) && dT(t, $i)
 //@   loop 2 invariant err == nil && globals != nil && mapOK(globals, t, len(t.Typedefs), $i, 0, 0) && dT(t, len(t.Typedefs)) && dC(t, $i) && xTC(t, len(t.Typedefs), $i)
+//@   loop 3 invariant err == nil && globals != nil && len($xs) == nSL(t) && (forall k int :: 0 <= k && k < len($xs) ==> $xs[k] == slAt(t, k)) && mapOK(globals, t, len(t.Typedefs), len(t.Constants), $i, 0)
+//@   loop 3 invariant dT(t, len(t.Typedefs)) && dC(t, len(t.Constants)) && xTC(t, len(t.Typedefs), len(t.Constants)) && dS(t, $i) && xTS(t, len(t.Typedefs), $i) && xCS(t, len(t.Constants), $i)
 //@   loop 4 invariant err == nil && globals != nil && mapOK(globals, t, len(t.Typedefs), len(t.Constants), nSL(t), $i)
 //@   loop 4 invariant dT(t, len(t.Typedefs)) && dC(t, len(t.Constants)) && xTC(t, len(t.Typedefs), len(t.Constants)) && dS(t, nSL(t)) && xTS(t, len(t.Typedefs), nSL(t)) && xCS(t, len(t.Constants), nSL(t))
 //@   loop 4 invariant dV(t, $i) && xTV(t, len(t.Typedefs), $i) && xCV(t, len(t.Constants), $i) && xSV(t, nSL(t), $i)
